@@ -86,6 +86,10 @@ class Ctx:
                     # a value applied as a function, a value the engine gave up on, a collection it could not trace: the evidence itself is unread
                     self._rec('UNDECIDED', rule, instance, where, 'the evidence contains a step the engine did not read (a value applied as a function / an untraced value): %s' % str(detail)[:160])
                     return
+                if re.search(r'numpy\.fromiter\(|(?<![A-Za-z_])ARRAY\(|\.tolist\(\)|numpy\.asarray\(|numpy\.array\(|numpy\.vectorize', text) and not read_all:
+                    # whole vectors computed at once by array arithmetic: the rules speak about one asset's scalar at a time and do not relate the two
+                    self._rec('UNDECIDED', rule, instance, where, 'the evidence is computed by array arithmetic over all assets at once, which the rule does not read element by element: %s' % str(detail)[:160])
+                    return
                 site_mod = str(where).split(':')[0] if where else None
                 d_ = str(detail if detail is not None else '').strip()
                 absence = d_ in ('0', '[]', 'None', '{}', '()', "['[]']", '') or re.search(
